@@ -10,6 +10,7 @@ import (
 
 	"rscheck/cfgq"
 	"rscheck/core"
+	"rscheck/lin"
 	"rscheck/pat"
 	"rscheck/rules/c10/flow"
 )
@@ -210,11 +211,16 @@ func (r *rs) r2() {
 		if !inDefault || !found {
 			c.Undecidedf("R2.depth", "inline-fallback", calls[0].Pos(), "the inline-command fallback is not in the default arm of the tag switch")
 		} else {
-			ok, w := flow.OnlyVia(gd, p, func(f cfgq.Fact) bool {
-				return flow.CmpIs(info, f, flow.IsObj(info, depth), token.EQL, 0) || flow.CmpIs(info, f, flow.IsObj(info, depth), token.LEQ, 0)
-			})
-			c.Check("R2.depth", "inline-fallback", calls[0].Pos(), ok,
-				"the inline-command parser must be reachable only at depth 0: an unknown type byte inside an array has to yield an error, not a value", w...)
+			// depth is never negative (0 at the entry points, +k below), so depth <= 0 and depth < 1 say the same
+			did := ast.NewIdent(depth.Name())
+			info.Uses[did] = depth
+			dform := lin.Of(info, did)
+			r.guard("R2.depth", "inline-fallback", calls[0].Pos(), gd, p,
+				func(f cfgq.Fact) bool {
+					return flow.LinIs(info, f, dform, token.EQL, 0) || flow.LinIs(info, f, dform, token.LEQ, 0)
+				},
+				flow.Opaque(gd, func(f cfgq.Fact) bool { return flow.LinAbout(info, f, dform) }, depth),
+				"the inline-command parser must be reachable only at depth 0: an unknown type byte inside an array has to yield an error, not a value")
 		}
 	}
 	// recursion passes depth+k, entry points pass 0
